@@ -544,6 +544,13 @@ def srvLine (st : SrvSt) (ts : List Tok) : SrvSt :=
           else if k = "empty" then handleSrvMsg st sc .empty [] resps code reason
           else bad st
       | _, _ => bad st
+    else if c = "srv.rebuild" then
+      let st := bump st
+      match args with
+      | [ok, msg] =>
+        if tokStr ok == "1" then st.covr "rebuild.ok"
+        else st.monfail "c07" s!"a RIB rebuilt from the responses of a complete Get(all, ALL) does not reproduce the source RIB: {(strOf msg).getD ""}"
+      | _ => bad st
     else if c = "srv.cutmid" then
       let st := bump st
       match beforeArrow args, parseOutcome (groups (afterArrow args)) with
